@@ -60,7 +60,7 @@ PROPS = {
         'not_decided': 'that each atom\'s base function is convex as labelled',
     },
     'C11': {
-        'rules': ['R19', 'R04', 'R07'],
+        'rules': ['R19', 'R04', 'R07', 'R17'],
         'decided': 'every interface reads every formula field, translates or warns about every '
                    'cone list, does not edit the formula, reports failure as NaN/None',
         'not_decided': 'numerical agreement of optima, solver status semantics',
